@@ -290,8 +290,20 @@ type snap struct {
 	CurSigs string
 	Stg     string
 	StgSigs string
-	Peers   string
+	// CurSlots / StgSlots: the NUMBER of signature slots of the current / staged transaction
+	// (one per participant) if it has a state, -1 if it has none. A transaction with a state
+	// and fewer slots cannot be signed (Sig / AddSig index the slots); without a state the
+	// restorer may hand out an empty or an all-nil slice, which no operation can tell apart.
+	CurSlots, StgSlots int
+	Peers              string
 	Parent  string
+}
+
+func slots(tx channel.Transaction) int {
+	if tx.State == nil {
+		return -1
+	}
+	return len(tx.Sigs)
 }
 
 func sigSet(tx channel.Transaction) string {
@@ -319,6 +331,7 @@ func snapOf(s channel.Source, peers []map[wallet.BackendID]wire.Address, parent 
 	return snap{Idx: s.Idx(), Params: pb.String(), Phase: s.Phase(),
 		Cur: fx.Enc(s.CurrentTX().State), CurSigs: sigSet(s.CurrentTX()),
 		Stg: fx.Enc(s.StagingTX().State), StgSigs: sigSet(s.StagingTX()),
+		CurSlots: slots(s.CurrentTX()), StgSlots: slots(s.StagingTX()),
 		Peers: peerb.String(), Parent: par}
 }
 
@@ -357,8 +370,8 @@ func (s snap) String() string {
 	case s.Err != "":
 		return "ERROR(" + s.Err + ")"
 	}
-	return fmt.Sprintf("idx=%d params=%s phase=%v cur=%s curSigs=%s staged=%s stagedSigs=%s peers=%s parent=%s",
-		s.Idx, short(s.Params), s.Phase, short(s.Cur), shortSigs(s.CurSigs), short(s.Stg), shortSigs(s.StgSigs), short(s.Peers), parentString(s.Parent))
+	return fmt.Sprintf("idx=%d params=%s phase=%v cur=%s curSigs=%s/%d slots staged=%s stagedSigs=%s/%d slots peers=%s parent=%s",
+		s.Idx, short(s.Params), s.Phase, short(s.Cur), shortSigs(s.CurSigs), s.CurSlots, short(s.Stg), shortSigs(s.StgSigs), s.StgSlots, short(s.Peers), parentString(s.Parent))
 }
 
 // restoreChannel observes RestoreChannel(id).
